@@ -229,6 +229,12 @@ func genJsonEnc(g *G, tier string, emit func(string)) {
 			cps = append(cps, c)
 		}
 	}
+	// code points whose low sixteen bits are those of a character the printer treats specially, in every plane
+	for plane := rune(1); plane <= 16; plane++ {
+		for _, low := range []rune{0x22, 0x5c, 0x0a, 0x1f, 0x7f, 0x2027, 0x2028, 0x2029, 0x202a, 0xd800, 0xfffd, 0xfeff} {
+			cps = append(cps, plane<<16|low)
+		}
+	}
 	for _, c := range cps {
 		emit(mkJsonEncPayload("~", "~", "s"+hexs(string(c))))
 		emit(mkJsonEncPayload("~", "~", "s"+hexs("a"+string(c)+"\"")))
@@ -273,6 +279,28 @@ func genJsonEnc(g *G, tier string, emit func(string)) {
 	for _, sh := range shapes {
 		for _, ws := range wsOptions {
 			emit(mkJsonEncPayload(ws[0], ws[1], sh))
+		}
+	}
+	// indentation of every width around the encoder's scratch space (64 bytes), by line ending, at every depth to 9,
+	// in containers with several entries: separators are assembled from comma, line and depth x indent
+	for _, w := range []int{1, 2, 7, 8, 9, 21, 31, 32, 33, 62, 63, 64, 65, 100, 130} {
+		for _, line := range []string{"~", "0a", "0d0a", "-"} {
+			for depth := 1; depth <= 9; depth += 2 {
+				arr, obj := "", ""
+				for d := 0; d < depth; d++ {
+					arr += "[-1 i1 "
+					obj += "{-1 s61 i1 s62 "
+				}
+				arr += "[-1 i7 i8 ]"
+				obj += "{-1 s63 i7 s64 i8 }"
+				for d := 0; d < depth; d++ {
+					arr += " i2 ]"
+					obj += " s65 i2 }"
+				}
+				ind := strings.Repeat("20", w)
+				emit(mkJsonEncPayload(line, ind, arr))
+				emit(mkJsonEncPayload(line, ind, obj))
+			}
 		}
 	}
 	// random trees with random options
